@@ -101,6 +101,13 @@ func tokIsLeaf(t MTok, e *expr.Expression, asColumn bool) bool {
 		return false
 	}
 	if !t.Dec.Known {
+		if t.Dec.KindOnly {
+			if asColumn {
+				_, isCol := e.Left.(expr.Column)
+				return isCol
+			}
+			return e.Op == expr.Wild
+		}
 		return true // documented meaning unknown: position only
 	}
 	v := t.Dec.Val
